@@ -451,8 +451,10 @@ def run_check(P, argv):
     known = {f['class']: f for f in findings if f.get('status') == 'known'}
 
     # oracle failures
-    fails = [c for c in all_cases if not c['oracle_ok']]
+    obl_fails = [c for c in all_cases if not c['oracle_ok'] and c.get('obligation')]
+    fails = [c for c in all_cases if not c['oracle_ok'] and not c.get('obligation')]
     cov['oracle_failures'] = len(fails)
+    cov['obligation_failures'] = len(obl_fails)
     reported_known = set()
     new_fail = None
     idx_of = {id(c): i for i, c in enumerate(all_cases)}
@@ -496,7 +498,7 @@ def run_check(P, argv):
             'seed': seed, 'tier': tier,
             'replay_cmd': '/verif/bin/check %s --replay <this file>' % pid})
         violations.append(('', path))
-    elif mism_real:
+    elif mism_real or obl_fails:
         # correspondence broken while the property held on every sampled input: search harder
         found = None
         sb = P.get('search', {})
@@ -507,7 +509,7 @@ def run_check(P, argv):
                                     tier='thorough', args=D.get('args'), timeout=D.get('timeout', 3000))
                     cov['evaluations'] += len(cs)
                     for c in cs:
-                        if not c['oracle_ok'] and (c.get('class') or '') not in known:
+                        if not c['oracle_ok'] and not c.get('obligation') and (c.get('class') or '') not in known:
                             c['_driver'] = D['name']
                             found = c
                             break
@@ -527,6 +529,14 @@ def run_check(P, argv):
                 'property_demands': small.get('oracle_msg'), 'found_by': 'search after correspondence mismatch',
                 'seed': seed, 'tier': tier})
             violations.append(('', path))
+        elif not mism_real:
+            c = obl_fails[0]
+            path = write_replay(pid, seed, {
+                'property': pid, 'kind': 'obligation-not-discharged',
+                'what_no_longer_checks': 'obligation:%s/%s/%s — %s' % (pid, c['_driver'], c['id'], c.get('oracle_msg')),
+                'theorems_resting_on_it': theorems, 'input': c['input'], 'observed': c.get('obs'),
+                'seed': seed, 'tier': tier}, '-obligation')
+            violations.append(('no-failing-input-found', path))
         else:
             c = mism_real[0]
             path = write_replay(pid, seed, {
